@@ -452,6 +452,14 @@ def plan(prop, tier, seed):
         items = []
         for _ in range(rng.randint(6, 14)):
             t = _text(rng)
+            missed_ts = None
+            sp = rng.random()
+            if sp < 0.06:
+                # a partial date asked right after its day has passed
+                t, missed_ts = workload.just_missed(rng)
+            elif sp < 0.16:
+                # the same text with letters a case-insensitive Unicode match folds together
+                t = workload.confuse(rng, t)
             chain = t.count(" - ") >= 3 and ".3.2020" in t
             if not chain:
                 t = t[:80]
@@ -465,7 +473,9 @@ def plan(prop, tier, seed):
                   else (10 if chain else rng.choice([1, 10, 10])),
                   "relative_match_len": rng.choice([1.0, 1.0, 0.9, 0.5, 0.1, 0.01, 1e-9, 0.999999, 0.3333333]),
                   "debug": rng.random() < 0.15}
-            if rng.random() < 0.7:
+            if missed_ts is not None:
+                it["ts"] = fmt_ts(missed_ts)
+            elif rng.random() < 0.7:
                 it["ts"] = fmt_ts(workload.ref_time(rng, 1970, 2100))
             else:
                 it["advance_s"] = rng.choice([0, 1, 59, 3600, 86400, 86400 * 365])
